@@ -186,6 +186,11 @@ func httpInputs(base *t_api.Request, tier string) []hostile {
 			}
 		} else if i >= 0 {
 			basePath := req.Path[:i]
+			for name, tok := range forgedCursors() {
+				r := req
+				r.Path = basePath + "?cursor=" + tok
+				add("query", "cursor:"+name, r)
+			}
 			for _, q := range []string{"", "id=", "id=*&limit=-1", "id=*&limit=101", "id=*&limit=abc", "id=*&state=bogus", "id=*&cursor=garbage", "id=*&cursor=" + forgedCursor(), "cursor=" + forgedCursor(), "id=%25&tags[]=x", "id=*&tags[resonate:invoke]=null", "id=%00", "id=" + strings.Repeat("a", 70000)} {
 				r := req
 				r.Path = basePath + "?" + q
@@ -208,6 +213,24 @@ func forgedCursor() string {
 	c := &t_api.Cursor[t_api.SearchPromisesRequest]{Next: nil}
 	s, _ := c.Encode()
 	return s
+}
+
+// validly signed cursors whose CONTENT is hostile (any client can mint them)
+func forgedCursors() map[string]string {
+	out := map[string]string{}
+	sid := int64(-5)
+	enc := func(name string, c interface{ Encode() (string, error) }) {
+		s, _ := c.Encode()
+		out[name] = s
+	}
+	enc("empty-id", &t_api.Cursor[t_api.SearchPromisesRequest]{Next: &t_api.SearchPromisesRequest{Id: "", States: []promise.State{promise.Pending}, Tags: map[string]string{}, Limit: 1}})
+	enc("nil-states", &t_api.Cursor[t_api.SearchPromisesRequest]{Next: &t_api.SearchPromisesRequest{Id: "*", Limit: 1}})
+	enc("zero-limit", &t_api.Cursor[t_api.SearchPromisesRequest]{Next: &t_api.SearchPromisesRequest{Id: "*", States: []promise.State{promise.Pending}, Tags: map[string]string{}, Limit: 0}})
+	enc("negative-limit", &t_api.Cursor[t_api.SearchPromisesRequest]{Next: &t_api.SearchPromisesRequest{Id: "*", States: []promise.State{promise.Pending}, Tags: map[string]string{}, Limit: -1, SortId: &sid}})
+	enc("huge-limit", &t_api.Cursor[t_api.SearchPromisesRequest]{Next: &t_api.SearchPromisesRequest{Id: "*", States: []promise.State{promise.Pending}, Tags: map[string]string{}, Limit: 1 << 40}})
+	enc("schedule-cursor", &t_api.Cursor[t_api.SearchSchedulesRequest]{Next: &t_api.SearchSchedulesRequest{Id: "*", Tags: map[string]string{"a": "b"}, Limit: 1}})
+	enc("schedule-empty-id", &t_api.Cursor[t_api.SearchSchedulesRequest]{Next: &t_api.SearchSchedulesRequest{Id: "", Limit: 0}})
+	return out
 }
 
 func strMenu() []string {
@@ -292,11 +315,15 @@ func grpcInputs(base *t_api.Request, tier string) []hostile {
 		return c
 	})
 	if base.Kind == t_api.SearchPromises || base.Kind == t_api.SearchSchedules {
-		for _, cur := range []string{"garbage", forgedCursor()} {
+		curs := map[string]string{"garbage": "garbage", "signed-empty": forgedCursor()}
+		for n, t := range forgedCursors() {
+			curs[n] = t
+		}
+		for name, cur := range curs {
 			c := proto.Clone(msg)
 			fd := c.ProtoReflect().Descriptor().Fields().ByName("cursor")
 			c.ProtoReflect().Set(fd, protoreflect.ValueOfString(cur))
-			out = append(out, hostile{proto: "grpc", sigKey: ep + ":cursor=" + trunc(cur, 8), desc: "cursor " + trunc(cur, 20), grpc: c})
+			out = append(out, hostile{proto: "grpc", sigKey: ep + ":cursor=" + name, desc: "cursor " + name, grpc: c})
 		}
 	}
 	return out
@@ -408,6 +435,18 @@ func (j *C13Job) RunFrom(start int, deadline time.Time) *runner.JobResult {
 				})
 			}
 			poison("at once")
+			// complete the promises involved so that stored registrations become tasks and are dispatched
+			kn.Do(func(w *world.World) {
+				defer func() {
+					if r := recover(); r != nil {
+						viol("C13:"+in.sigKey+":background-panic", "after input %s completing the promises panicked: %v", in.desc, r)
+					}
+				}()
+				for i, id := range []string{"p", "n1", "n2"} {
+					w.Do(7, i, &t_api.Request{Kind: t_api.CompletePromise, CompletePromise: &t_api.CompletePromiseRequest{Id: id, State: promise.Resolved}})
+				}
+			})
+			poison("after completing the promises")
 			kn.Do(func(w *world.World) { w.SetClock(w.Clock + 3600_000) })
 			poison("one hour later")
 			if err := kn.Restart(); err != nil {
